@@ -118,14 +118,20 @@ structure St where
   env : Env
   cache : Cache
 
+/-- the task directory, resolved (once) when `dirAfter` layers have been processed -/
+def tdNext (cx : Ctx) (i : Nat) (s : St) : Option Str :=
+  match s.td with
+  | some d => some d
+  | none => if i ≥ cx.dirAfter then some (joinDir cx.rootDir (render s.env cx.taskDirTpl)) else none
+
+/-- the directory in which the `sh:` definitions of layer `l` (the `i`-th) run -/
+def layerDir (cx : Ctx) (i : Nat) (s : St) (l : Layer) : Str :=
+  if l.site.inTaskDir then (tdNext cx i s).getD cx.rootDir else cx.rootDir
+
 /-- one layer; before it, the task directory is resolved if `dirAfter` layers have been processed -/
 def stepLayer (w : World) (cx : Ctx) (i : Nat) (s : St) (l : Layer) : St :=
-  let td' : Option Str := match s.td with
-    | some d => some d
-    | none => if i ≥ cx.dirAfter then some (joinDir cx.rootDir (render s.env cx.taskDirTpl)) else none
-  let dir := if l.site.inTaskDir then td'.getD cx.rootDir else cx.rootDir
-  let r := evalBlock w dir l.defs s.env s.cache
-  { td := td', env := r.1, cache := r.2 }
+  let r := evalBlock w (layerDir cx i s l) l.defs s.env s.cache
+  { td := tdNext cx i s, env := r.1, cache := r.2 }
 
 def runLayers (w : World) (cx : Ctx) : List Layer → Nat → St → St
   | [], _, s => s
